@@ -575,12 +575,50 @@ def check_fresh(case):
     return dict(nt=len(r["canon"][1]) >= 4, classes=["fresh-interpreter"])
 
 
+def _local_class_after_explicit_options(case):
+    """
+    A graph over a FUNCTION-LOCAL vertex class (dill pickles such a class by value) is dumped with default
+    arguments after an earlier, unrelated dumps() call that spelled dill's options out: every call stands alone.
+    """
+    import dill
+
+    from edgegraph.output import nrpickler
+    from edgegraph.structure import DirectedEdge, Universe, Vertex
+
+    class LocalStation(Vertex):
+        pass
+
+    a, b = LocalStation(attributes={"i": 0}), LocalStation(attributes={"i": 1})
+    DirectedEdge(a, b)
+    u = Universe(vertices=[a, b])
+    sel = case.get("proto", 0) % 3
+    try:
+        nrpickler.dumps(Vertex(), **[dict(byref=True), dict(recurse=True), dict(byref=True, fmode=dill.CONTENTS_FMODE)][sel])
+    except Exception:  # noqa - whatever that call does is its own business
+        pass
+    try:
+        blob = nrpickler.dumps(u)
+    except Exception as e:  # noqa
+        raise Violation("dumps-raised:" + type(e).__name__, f"default-argument dumps of a graph over a function-local class, after an earlier dumps() with explicit dill options: {e!r}")
+    try:
+        cu = dill.loads(blob)
+    except Exception as e:  # noqa
+        raise Violation("loads-raised:" + type(e).__name__, f"graph over a function-local class: {e!r}")
+    cv = cu.vertices
+    require([getattr(x, "i", None) for x in cv] == [0, 1] and type(cv[0]).__name__ == "LocalStation" and len(cv[0].links) == 1 and cv[0].links[0].v2 is cv[1],
+            "copy-not-isomorphic", "graph over a function-local class did not come back as built")
+
+
 def check_case(case):
     if case.get("fresh"):
         return check_fresh(case["case"])
     if case["t"] == "big":
         return check_big(case)
-    return check_world(case)
+    info = check_world(case)
+    if (case.get("root", 0) + case.get("proto", 0)) % 4 == 0:
+        _local_class_after_explicit_options(case)
+        info["classes"] = list(info.get("classes", [])) + ["local-class-after-explicit-dill-options"]
+    return info
 
 
 # ----------------------------------------------------------------------------- known finding probe
